@@ -130,6 +130,14 @@ P.update({
             'counters, both monitors and Powell\'s direction set, independence (advancing one leaves the other untouched) and own evaluation counting.',
             'DESIGN.md#c06', 'byte-level restart-file equality and file-system faults are outside the claim.'),
 })
+P.update({
+    'C07': (True, 'model_checking',
+            'For enumerated subsets of Set* methods every call order (k! permutations) is applied to a fresh real solver (NM, Powell, DE, DE2) with symbolic arguments, '
+            'followed by real Steps under the recorded random draws of the reference order: z3 closes equality of the complete post-states and evaluation sequences, '
+            'and any order that consumes randomness differently is reported; DE2 is run with maps that evaluate the work items in every order (optionally interleaved '
+            'with foreign work) and must reproduce the serial-map trajectory.', 'DESIGN.md#c07',
+            'NOT CLAIMED: real thread/process maps (preemption inside the cost), ensemble step-wise vs run-to-completion equality.'),
+})
 
 NOT_YET = 'check not built yet in this round (planned: DESIGN.md section 4)'
 
